@@ -79,8 +79,9 @@ class Elem:
 
 
 H = Elem('hydrogen', 'H', 1)
-C = Elem('carbon', 'C', 6)
+C = _C = Elem('carbon', 'C', 6)
 NE = Elem('neon', 'Ne', 10)
+WOLF = Elem('tungsten', 'W', 74)
 
 
 def _universe():
@@ -155,9 +156,9 @@ def write_adf11(case, element, n_ne, n_te, charges, resolved, trailer=True, cold
 
 
 ADF11_Q = [{'n_ne': a, 'n_te': b, 'charges': c, 'resolved': r} for (a, b, c, r) in
-           [(1, 1, (1,), False), (3, 2, (1, 2), False), (8, 8, (1, 2, 3), False), (9, 7, (1, 2), True), (17, 16, (3, 4, 5, 6), False), (24, 30, (1,), True)]]
+           [(1, 1, (1,), False), (3, 2, (1, 2), False), (3, 2, (1, 9, 10), False), (9, 4, (2, 10, 11, 20, 21, 74), False), (8, 9, (10, 1), True), (8, 8, (1, 2, 3), False), (9, 7, (1, 2), True), (17, 16, (3, 4, 5, 6), False), (24, 30, (1,), True)]]
 ADF11_T = ADF11_Q + [{'n_ne': a, 'n_te': b, 'charges': tuple(range(1, c + 1)), 'resolved': r} for a in (1, 2, 7, 8, 9, 15, 16, 17, 25) for b in (1, 2, 7, 8, 9, 16, 17, 31)
-                     for c in (1, 2, 5) for r in (False, True)]
+                     for c in (1, 2, 5, 11) for r in (False, True)]
 
 COMMON_OUT = ['regular-expression scraping on symbolic text (all text structure is concrete per job; only the numbers are symbolic)',
               'download / URL handling in _locate_adas_file', 'writing the tables to the JSON repository and reading them back is C06\'s claim: here the '
@@ -175,6 +176,7 @@ COMMON_OUT = ['regular-expression scraping on symbolic text (all text structure 
          outside=COMMON_OUT + ['metastable-resolved blocks with more than one metastable per stage (the parser keeps one table per charge)'])
 def adf11(ex, uni, n_ne, n_te, charges, resolved):
     case = Case(ex, uni)
+    C = _C if max(charges) <= 6 else (NE if max(charges) <= 10 else WOLF)      # element with enough charge states (two-digit Z1 included)
     try:
         lines, dens, temp, blocks = write_adf11(case, C, n_ne, n_te, charges, resolved)
         path = case.write('adf11/scd96/scd96_c.dat', lines)
@@ -189,7 +191,7 @@ def adf11(ex, uni, n_ne, n_te, charges, resolved):
             ex.prove(_eq_table(ex, d['te'], temp), 'adf11:temperature-axis==next-n_te-numbers')
             ex.prove(_eq_table(ex, d['rates'], blocks[z1]), 'adf11:rates[ne,te]==block-row(te)-column(ne)')
         # element header mismatch is rejected
-        for wrong in (NE, Elem('carbon', 'C', 7), Elem('boron', 'B', 6)):
+        for wrong in (Elem('argon', 'Ar', 18), Elem(C.name, C.symbol, C.atomic_number + 1), Elem('boron', 'B', C.atomic_number)):
             try:
                 mod.parse_adf11(wrong, path)
                 ok = False
